@@ -17,8 +17,10 @@ def build(tier: str, rng: random.Random):
         ops = [o for o in calcheck.maximal(calcheck.tlc_scripts(gen)) if any(x[0] == "fault" for x in o)]
         n += len(ops)
         for o in calcheck.sample_scripts(ops, per, rng):
-            scripts.append(calcheck.to_script(o, base, seed=rng.randrange(1, 10**6),
-                                              saving=(rng.random() < 0.5) if base["kind"] == "rr" else False))
+            sc = calcheck.to_script(o, base, seed=rng.randrange(1, 10**6),
+                                    saving=(rng.random() < 0.5) if base["kind"] == "rr" else False)
+            sc["fault_base"] = rng.random() < 0.3       # the plug-in is interrupted (a BaseException that is not an Exception)
+            scripts.append(sc)
     return scripts, n
 
 
